@@ -256,6 +256,7 @@ def run_long(ctx, st):
     except OutOfDomain:
         ctx.reach('ood'); ctx.reach(); return
     except Exception as e:      # noqa
+        __import__('vxlib.symx.core', fromlist=['x']).proxy_rejected(e)
         ctx.check('C07/long-history', False, 'event %d: %s: %s' % (i, type(e).__name__, _safe(e))); ctx.reach(); return
     ctx.check('C07/long-history', True)
     ctx.reach()
@@ -276,6 +277,7 @@ def run(ctx, st):
         ctx.reach()
         return
     except Exception as e:      # noqa
+        __import__('vxlib.symx.core', fromlist=['x']).proxy_rejected(e)
         ctx.check(L, False, '%s: %s' % (type(e).__name__, _safe(e)))
         ctx.reach()
         return
